@@ -131,6 +131,11 @@ func (a Atom) Expression() clause.Expression {
 }
 
 // MapValue: the atom as a map entry (eq / isnull / in only).
+// StructOK: the atom can be a field of a struct condition: an equality whose value is not the
+// zero value of its field (a pointer field pointing at "" is not zero).
+func (a Atom) StructOK() bool {
+	return a.Op == "eq" && a.Col != "id" && (a.Col == "nick" || a.IsStr && a.S != "" || !a.IsStr && a.I != 0)
+}
 func (a Atom) MapOK() bool { return a.Op == "eq" || a.Op == "isnull" || a.Op == "in" }
 func (a Atom) MapValue() interface{} {
 	switch a.Op {
@@ -547,7 +552,7 @@ func (g *Gen) eqAtomsDistinctCols(n int, forStruct bool) []int {
 	byCol := map[string][]Atom{}
 	for _, a := range g.Atoms {
 		if forStruct {
-			if a.Op == "eq" && (a.IsStr && a.S != "" || !a.IsStr && a.I != 0) {
+			if a.StructOK() {
 				byCol[a.Col] = append(byCol[a.Col], a)
 			}
 		} else if a.MapOK() {
@@ -908,7 +913,7 @@ func DiscoverTexts(db *gorm.DB, base func() *gorm.DB, atoms []Atom) (map[int][]s
 			rec(a.ID, base().Where(map[string]interface{}{a.Col: a.MapValue()}))
 			rec(a.NegID(), base().Not(map[string]interface{}{a.Col: a.MapValue()}))
 		}
-		if a.Op == "eq" && (a.IsStr && a.S != "" || !a.IsStr && a.I != 0) {
+		if a.StructOK() {
 			rec(a.ID, base().Where(StructCond([]Atom{a})))
 			rec(a.NegID(), base().Not(StructCond([]Atom{a})))
 		}
@@ -938,6 +943,9 @@ func GenAtoms(r *lib.Rng, names, nicks []string) []Atom {
 			a.Col, a.Op = "nick", "isnull"
 		case 8:
 			a.Col, a.Op, a.IsStr, a.S = "nick", "eq", true, lib.Pick(r, nicks)
+			if r.Chance(1, 3) {
+				a.S = "" // a pointer field pointing at the zero value still is a condition
+			}
 		case 9:
 			a.Col, a.Op, a.IsStr, a.SL = "name", "in", true, []string{lib.Pick(r, names), lib.Pick(r, names)}
 		}
@@ -1101,7 +1109,7 @@ func FullAtoms(r *lib.Rng) []Atom {
 		{ID: 2, Col: "age", Op: "neq", I: 5},
 		{ID: 3, Col: "age", Op: "lt", I: 2},
 		{ID: 4, Col: "age", Op: "gt", I: 3},
-		{ID: 5, Col: "age", Op: "lte", I: int64(r.Range(2, 3))},
+		{ID: 5, Col: "age", Op: "lte", I: int64(r.Range(1, 2))}, // never 3: `<= 3` is the negation gorm renders for atom 4
 		{ID: 6, Col: "age", Op: "gte", I: 4},
 		{ID: 7, Col: "name", Op: "like", IsStr: true, S: "a%"},
 		{ID: 8, Col: "age", Op: "in", IL: []int64{1, 4}},
@@ -1123,6 +1131,28 @@ func (g *Gen) NegationChains() [][]Call {
 		o := Unit{Form: "expr", CE: &CExpr{Kind: "atom", Atom: b.ID}}
 		out = append(out, []Call{{Kind: "not", Unit: Unit{Form: "group", Calls: []Call{{Kind: "where", Unit: e}, {Kind: "where", Unit: o}}}}})
 		out = append(out, []Call{{Kind: "where", Unit: o}, {Kind: "not", Unit: Unit{Form: "expr", CE: &CExpr{Kind: "and", Kids: []*CExpr{{Kind: "atom", Atom: a.ID}, {Kind: "atom", Atom: b.ID}}}}}})
+	}
+	// Not over a group of three or four members, Where/Or in every arrangement (the first member
+	// is a Where): all members structured, and once more with one raw member
+	for n := 3; n <= 4; n++ {
+		for mask := 0; mask < 1<<(n-1); mask++ {
+			for _, withRaw := range []bool{false, true} {
+				var calls []Call
+				for i := 0; i < n; i++ {
+					k := "where"
+					if i > 0 && mask>>(i-1)&1 == 1 {
+						k = "or"
+					}
+					a := lib.Pick(g.R, g.Atoms)
+					u := Unit{Form: "expr", CE: &CExpr{Kind: "atom", Atom: a.ID}}
+					if withRaw && i == n-1 {
+						u = g.rawUnit(lib.Pick(g.R, []string{"and", "or"}), "inline", false)
+					}
+					calls = append(calls, Call{Kind: k, Unit: u})
+				}
+				out = append(out, []Call{{Kind: "not", Unit: Unit{Form: "group", Calls: calls}}})
+			}
+		}
 	}
 	return out
 }
